@@ -2473,6 +2473,22 @@ class Interp:
             for k in cls.model_fields:
                 obj.fields.setdefault(k, SOpaque(f"{cls.__name__}.{k} (default)"))
             return obj
+        if isinstance(cls, type) and issubclass(cls, tuple) and hasattr(cls, "_fields"):
+            # typing.NamedTuple / collections.namedtuple: a record with positional fields (only attribute access is modelled)
+            names = list(cls._fields)
+            if len(args) > len(names):
+                self.raise_(TypeError, f"too many arguments for {cls.__name__}")
+            obj = SObj(cls, dict(zip(names, args)))
+            for k, v in kwargs.items():
+                if k not in names or k in obj.fields:
+                    self.raise_(TypeError, f"unexpected or repeated argument {k} for {cls.__name__}")
+                obj.fields[k] = v
+            for n in names:
+                if n not in obj.fields:
+                    if n not in getattr(cls, "_field_defaults", {}):
+                        self.raise_(TypeError, f"missing argument {n} for {cls.__name__}")
+                    obj.fields[n] = cls._field_defaults[n]
+            return obj
         fields = _init_fields(cls)
         if fields is not None:
             obj = SObj(cls, {})
